@@ -132,7 +132,14 @@ def run(ctx):
         ok = len(call) == 1 and H.show(hq.peel(call[0]["args"][2])) == "level"
         ctx.check(ok, R, "cli::level-option-reaches-compress", mb["file"], "the parsed --level value is what compress() receives")
         lc = [x for x in hq.calls_to(cb["body"], "ruzstd::encoding::compress")]
-        ok = len(lc) == 1 and H.show(hq.peel(lc[0]["args"][2])) == "compression_level"
+        ok = False
+        if len(lc) == 1:
+            a_ = hq.peel(lc[0]["args"][2])
+            cix = hq.Index(cb)
+            d_ = cix.canon.defs.get(a_.get("lid")) if a_.get("k") == "Local" else None
+            # the argument is the local initialised by the level table (directly, through `?`, or through a helper
+            # that was added since the review and is inlined back)
+            ok = d_ is not None and d_[0] == "let" and any(y is cm[0] for y, _ in H.walk(d_[1]))
         ctx.check(ok, R, "cli::mapped-level-reaches-library", cb["file"], "the mapped level is what the library receives")
     ctx.guard(R, "levels", levels)
     ctx.floor(R, len([o for o in ctx.obs if o.rule == R and o.cfg == ctx.cfg]), 8, "level obligations")
